@@ -211,6 +211,18 @@ func chainMutations(purpose string) []chainMut {
 		o := o
 		add("ext-order-"+o, true, "any", func(s []*CertSpec, p int) { s[p].ExtOrder = o })
 	}
+	// key identifiers are unverified hints: a self-signed certificate is self-signed whatever its authority key identifier says
+	add("self-signed-nonroot-aki-differs", false, "mid", func(s []*CertSpec, p int) { s[p].SelfSign = true; s[p].KeyIDs = "aki-differs" })
+	add("twin-self-signed-aki-differs", false, "mid", func(s []*CertSpec, p int) {
+		s[p].SelfSign = true
+		s[p].CN = s[p+1].CN
+		s[p].KeyID = s[p+1].KeyID
+		s[p].KeyIDs = "aki-differs"
+	})
+	add("self-signed-nonroot-aki-equals-ski", false, "mid", func(s []*CertSpec, p int) { s[p].SelfSign = true; s[p].KeyIDs = "aki-equals-own-ski" })
+	add("aki-differs", true, "any", func(s []*CertSpec, p int) { s[p].KeyIDs = "aki-differs" })
+	add("aki-equals-own-ski", true, "any", func(s []*CertSpec, p int) { s[p].KeyIDs = "aki-equals-own-ski" })
+	add("ski-absent", true, "any", func(s []*CertSpec, p int) { s[p].KeyIDs = "ski-absent" })
 	add("root-not-self-issued", false, "root", func(s []*CertSpec, p int) { s[p].IssuerCN = "higher-root" })
 	return m
 }
